@@ -129,7 +129,15 @@ pub fn page(cx: &Cx, w: u32, h: u32) -> Page<'static> {
         }
         _ => {
             let bytes = cx.bytes(padded_page_len(w, h));
-            Page::from_bytes(w, h, bytes).expect("length computed from the documented layout")
+            match Page::from_bytes(w, h, bytes) {
+                Ok(p) => p,
+                Err(_) => {
+                    // A tree whose layout arithmetic disagrees with the documented one: not this
+                    // generator's business (and never a reason to stop); fall back to the pixel API.
+                    cx.probe("from_bytes_rejected_documented_length");
+                    Page::new(PageId(cx.draw(256) as u8), w, h)
+                }
+            }
         }
     }
 }
